@@ -16,7 +16,7 @@
 //	                 commit | rollback | commit that fails on a write conflict | NewBtree error (incompatible
 //	                 options on an existing store) | OpenBtree error (missing store) | Commit with a cancelled
 //	                 context. Names are reused, so "create, abort, create again with other options" occurs.
-//	                 site-class = <ending>+<placement profile of the store>.
+//	                 site-class = <ending>+<what the transaction logged last: after-create | after-active-add>.
 //	create-race      2..6 goroutines, each its own transaction, create the same name (same or differing
 //	                 options), add items, commit.
 //	                 WEAKER READING CHOSEN DELIBERATELY: only "at most one entry with that name; if at least
@@ -43,6 +43,7 @@ import (
 	"time"
 
 	"github.com/sharedcode/sop"
+	"github.com/sharedcode/sop/btree"
 	"github.com/sharedcode/sop/database"
 
 	"verifharness/kit/env"
@@ -341,21 +342,28 @@ func checkModel(where string, o observation, model map[string]*wantStore, ghosts
 	}
 	for name, site := range ghosts {
 		p := o.Probes[name]
-		if countOf(o.Stores, name) > 0 {
-			add("store-listed", site, map[string]any{"store": name, "getstores": o.Stores})
-		}
-		for f, l := range o.ListFiles {
+		dd := map[string]any{"store": name, "getstores": o.Stores, "list_files": o.ListFiles, "probe": p}
+		listed := countOf(o.Stores, name) > 0
+		inFile, folder := false, false
+		for _, l := range o.ListFiles {
 			if countOf(l, name) > 0 {
-				add("in-storelist-file", site, map[string]any{"store": name, "folder": f, "storelist": l})
+				inFile = true
 			}
 		}
-		for f, ex := range p.Folders {
+		for _, ex := range p.Folders {
 			if ex {
-				add("folder-remains", site, map[string]any{"store": name, "path": f})
+				folder = true
 			}
 		}
+		dd["listed_by_getstores"], dd["in_storelist_file"], dd["folder_on_disk"], dd["opens"] = listed, inFile, folder, p.Opened
 		if p.Opened {
-			add("opens", site, map[string]any{"store": name, "dump": o.Dumps[name]})
+			dd["dump"] = o.Dumps[name]
+		}
+		switch {
+		case listed || p.Opened:
+			add("store-exists", site, dd)
+		case inFile || folder:
+			add("remnants-on-disk", site, dd)
 		}
 	}
 	for name, w := range model {
@@ -445,11 +453,12 @@ func genAbortPlan(rnd *rand.Rand, seed int64, salt string, forceEnding string, f
 		perm := rnd.Perm(len(pool))
 		for j := 0; j < nc; j++ {
 			o := randOpts(rnd)
-			if i == forcedAt && j == 0 {
+			forced := i == forcedAt && j == nc-1 // the forced creation is the LAST one of its transaction
+			if forced {
 				o.Profile = forceProfile
 			}
 			items := rnd.Intn(3 * o.Slot)
-			if i == forcedAt && j == 0 && items == 0 {
+			if forced && items == 0 {
 				items = 1 + rnd.Intn(o.Slot)
 			}
 			tx.Creates = append(tx.Creates, createPlan{Name: pool[perm[j]], Opts: o, Items: items})
@@ -468,6 +477,7 @@ type caseResult struct {
 	unusable   string
 	fp         string
 	notes      map[string]any
+	endStats   []string
 }
 
 func cancelled() context.Context {
@@ -521,6 +531,8 @@ func runAbort(pl abortPlan) (res caseResult) {
 		pendingBase := ""
 		dead := "" // set when the transaction was ended by an error inside an API call
 		created := []createPlan{}
+		// what the transaction logged last: a store creation or an actively persisted item add
+		lastLogged := "after-create"
 		for _, c := range tx.Creates {
 			if _, exists := model[c.Name]; exists {
 				continue // committed earlier: NewBtree would open it, that is not a creation
@@ -533,6 +545,7 @@ func runAbort(pl abortPlan) (res caseResult) {
 				break
 			}
 			created = append(created, c)
+			lastLogged = "after-create"
 			w := &wantStore{Opts: c.Opts}
 			for i := 0; i < c.Items; i++ {
 				k, v := fmt.Sprintf("%s-k%03d", c.Name, i), fmt.Sprintf("tx%d-%d", ti, i)
@@ -543,6 +556,9 @@ func runAbort(pl abortPlan) (res caseResult) {
 					break
 				}
 				w.Items = append(w.Items, sopx.KV{K: k, V: v})
+				if c.Opts.Profile == sopx.SepActive {
+					lastLogged = "after-active-add"
+				}
 			}
 			if dead != "" {
 				break
@@ -631,6 +647,7 @@ func runAbort(pl abortPlan) (res caseResult) {
 		part := ending
 		if committed {
 			part += "=ok"
+			res.endStats = append(res.endStats, ending+":committed")
 			for n, w := range pending {
 				model[n] = w
 				delete(ghosts, n)
@@ -641,11 +658,13 @@ func runAbort(pl abortPlan) (res caseResult) {
 		} else {
 			for _, c := range created {
 				if _, isCommitted := model[c.Name]; !isCommitted {
-					ghosts[c.Name] = ending + "+" + string(c.Opts.Profile)
+					ghosts[c.Name] = ending + "+" + lastLogged
 					abortedCreations++
 				}
 				part += "+" + string(c.Opts.Profile)
 			}
+			part += "/" + lastLogged
+			res.endStats = append(res.endStats, ending+":failed")
 		}
 		fpParts = append(fpParts, part)
 
@@ -686,17 +705,32 @@ func setItem(w *wantStore, k, v string) {
 // family 2: create-race
 // ---------------------------------------------------------------------------------------------
 
+// Modes:
+//
+//	scripted         2..4 transactions driven from one goroutine; their steps (begin+NewBtree, adds, end)
+//	                 are interleaved by the PRNG; each ends by commit or rollback. Deterministic and fast.
+//	parallel-create  the begin+NewBtree steps run in parallel goroutines behind a barrier (the real creation
+//	                 race); adds and endings are then interleaved from one goroutine.
+//	parallel-full    everything in parallel (thorough tier only: two creators that both register the first
+//	                 root node make the library wait out its 3-minute sector-lock timeout, fs/hashmap.fileregion.go).
+//
+// Value placement SepActive is left out of this family: its rollback defect has its own signature in
+// create-abort and would only be aliased here.
 type racePlan struct {
 	Seed        int64       `json:"seed"`
 	Salt        string      `json:"salt"`
+	Mode        string      `json:"mode"`
 	N           int         `json:"creators"`
 	Opts        []storeOpts `json:"opts"`
+	Ends        []string    `json:"ends"` // commit | rollback per creator
 	Items       int         `json:"items_each"`
 	Preexisting bool        `json:"another_store_exists"`
 	StaggerUs   []int       `json:"stagger_us"`
+	Order       [][2]int    `json:"order"` // scripted steps: (creator, step) with step 0=begin+NewBtree 1=adds 2=end
 }
 
 type creatorResult struct {
+	End       string `json:"end"`
 	NewErr    string `json:"newbtree_err,omitempty"`
 	AddErr    string `json:"add_err,omitempty"`
 	CommitErr string `json:"commit_err,omitempty"`
@@ -705,16 +739,51 @@ type creatorResult struct {
 
 const raceStore = "raced"
 
-func genRacePlan(rnd *rand.Rand, seed int64, salt string, n int, mixed bool) racePlan {
-	p := racePlan{Seed: seed, Salt: salt, N: n, Items: 1 + rnd.Intn(3), Preexisting: rnd.Intn(2) == 0}
-	first := randOpts(rnd)
+var raceProfiles = []sopx.Profile{sopx.InNode, sopx.Separate, sopx.SepCached}
+
+func raceOpts(rnd *rand.Rand) storeOpts {
+	o := randOpts(rnd)
+	o.Profile = raceProfiles[rnd.Intn(len(raceProfiles))]
+	return o
+}
+
+func genRacePlan(rnd *rand.Rand, seed int64, salt, mode string, n int, mixed bool) racePlan {
+	p := racePlan{Seed: seed, Salt: salt, Mode: mode, N: n, Items: 1 + rnd.Intn(3), Preexisting: rnd.Intn(2) == 0}
+	first := raceOpts(rnd)
 	for i := 0; i < n; i++ {
 		o := first
 		if mixed && i > 0 && rnd.Intn(2) == 0 {
-			o = randOpts(rnd)
+			o = raceOpts(rnd)
 		}
 		p.Opts = append(p.Opts, o)
 		p.StaggerUs = append(p.StaggerUs, rnd.Intn(3)*rnd.Intn(400))
+		end := "commit"
+		if mode != "parallel-full" && rnd.Intn(3) == 0 {
+			end = "rollback"
+		}
+		p.Ends = append(p.Ends, end)
+	}
+	if mode != "parallel-full" {
+		p.Ends[rnd.Intn(n)] = "commit"
+		// random merge of the per-creator step sequences
+		next := make([]int, n)
+		first := 0
+		if mode == "parallel-create" {
+			first = 1 // step 0 happens in the goroutines
+			for i := range next {
+				next[i] = 1
+			}
+		}
+		remaining := n * (3 - first)
+		for remaining > 0 {
+			i := rnd.Intn(n)
+			if next[i] > 2 {
+				continue
+			}
+			p.Order = append(p.Order, [2]int{i, next[i]})
+			next[i]++
+			remaining--
+		}
 	}
 	return p
 }
@@ -744,63 +813,136 @@ func runRace(pl racePlan) (res caseResult) {
 		model[baseStore] = &wantStore{Opts: baseOpts, Items: []sopx.KV{{K: "b0", V: "seed"}}}
 	}
 	results := make([]creatorResult, pl.N)
-	start := make(chan struct{})
-	var wg sync.WaitGroup
-	for i := 0; i < pl.N; i++ {
-		wg.Add(1)
-		go func(i int) {
-			defer wg.Done()
-			defer func() {
-				if p := recover(); p != nil {
-					results[i].CommitErr = fmt.Sprintf("panic: %v", p)
-				}
-			}()
-			<-start
-			if us := pl.StaggerUs[i]; us > 0 { // schedule perturbation only, never consulted by the oracle
-				time.Sleep(time.Duration(us) * time.Microsecond)
-			}
-			t, err := d.Begin(sop.ForWriting, 2*time.Minute)
-			if err != nil {
-				results[i].NewErr = "begin: " + err.Error()
-				return
-			}
-			b, err := sopx.New[string, string](d, t, pl.Opts[i].so(raceStore))
-			if err != nil {
-				results[i].NewErr = err.Error()
-				t.Rollback(sopx.Ctx)
-				return
-			}
-			for j := 0; j < pl.Items; j++ {
-				if ok, err := b.Add(sopx.Ctx, fmt.Sprintf("g%d-k%d", i, j), fmt.Sprintf("g%d", i)); err != nil || !ok {
-					results[i].AddErr = fmt.Sprintf("ok=%v err=%v", ok, err)
-					t.Rollback(sopx.Ctx)
-					return
-				}
-			}
-			if err := t.Commit(sopx.Ctx); err != nil {
-				results[i].CommitErr = err.Error()
-				t.Rollback(sopx.Ctx)
-				return
-			}
-			results[i].Committed = true
-		}(i)
+	txs := make([]sop.Transaction, pl.N)
+	trees := make([]btree.BtreeInterface[string, string], pl.N)
+	dead := make([]bool, pl.N)
+	for i := range results {
+		results[i].End = pl.Ends[i]
 	}
-	done := make(chan struct{})
-	go func() { wg.Wait(); close(done) }()
-	close(start)
-	select {
-	case <-done:
-	case <-time.After(5 * time.Minute): // watchdog: no verdict, never a violation
-		res.unusable = "race-watchdog"
-		return
+	stepNew := func(i int) {
+		t, err := d.Begin(sop.ForWriting, 2*time.Minute)
+		if err != nil {
+			results[i].NewErr = "begin: " + err.Error()
+			dead[i] = true
+			return
+		}
+		txs[i] = t
+		b, err := sopx.New[string, string](d, t, pl.Opts[i].so(raceStore))
+		if err != nil {
+			results[i].NewErr = err.Error()
+			t.Rollback(sopx.Ctx)
+			dead[i] = true
+			return
+		}
+		trees[i] = b
 	}
-	committed, newErrs, commitErrs := 0, 0, 0
+	stepAdd := func(i int) {
+		if dead[i] {
+			return
+		}
+		for j := 0; j < pl.Items; j++ {
+			if ok, err := trees[i].Add(sopx.Ctx, fmt.Sprintf("g%d-k%d", i, j), fmt.Sprintf("g%d", i)); err != nil || !ok {
+				results[i].AddErr = fmt.Sprintf("ok=%v err=%v", ok, err)
+				txs[i].Rollback(sopx.Ctx)
+				dead[i] = true
+				return
+			}
+		}
+	}
+	stepEnd := func(i int) {
+		if dead[i] {
+			return
+		}
+		if pl.Ends[i] == "rollback" {
+			if err := txs[i].Rollback(sopx.Ctx); err != nil {
+				results[i].CommitErr = "rollback returned: " + err.Error()
+			}
+			return
+		}
+		if err := txs[i].Commit(sopx.Ctx); err != nil {
+			results[i].CommitErr = err.Error()
+			txs[i].Rollback(sopx.Ctx)
+			return
+		}
+		results[i].Committed = true
+	}
+	inParallel := func(f func(i int)) bool {
+		start := make(chan struct{})
+		var wg sync.WaitGroup
+		for i := 0; i < pl.N; i++ {
+			wg.Add(1)
+			go func(i int) {
+				defer wg.Done()
+				defer func() {
+					if p := recover(); p != nil {
+						results[i].CommitErr = fmt.Sprintf("panic: %v", p)
+						dead[i] = true
+					}
+				}()
+				<-start
+				if us := pl.StaggerUs[i]; us > 0 { // schedule perturbation only, never consulted by the oracle
+					time.Sleep(time.Duration(us) * time.Microsecond)
+				}
+				f(i)
+			}(i)
+		}
+		done := make(chan struct{})
+		go func() { wg.Wait(); close(done) }()
+		close(start)
+		select {
+		case <-done:
+			return true
+		case <-time.After(6 * time.Minute): // watchdog: no verdict, never a violation
+			return false
+		}
+	}
+	overlap := true
+	switch pl.Mode {
+	case "parallel-full":
+		if !inParallel(func(i int) { stepNew(i); stepAdd(i); stepEnd(i) }) {
+			res.unusable = "race-watchdog"
+			return
+		}
+	default:
+		if pl.Mode == "parallel-create" {
+			if !inParallel(stepNew) {
+				res.unusable = "race-watchdog"
+				return
+			}
+		}
+		began, ended := map[int]int{}, map[int]int{}
+		for pos, st := range pl.Order {
+			switch st[1] {
+			case 0:
+				began[st[0]] = pos
+				stepNew(st[0])
+			case 1:
+				stepAdd(st[0])
+			case 2:
+				ended[st[0]] = pos
+				stepEnd(st[0])
+			}
+		}
+		if pl.Mode == "scripted" {
+			overlap = false
+			for i := 0; i < pl.N; i++ {
+				for j := 0; j < pl.N; j++ {
+					if i != j && began[i] < began[j] && began[j] < ended[i] {
+						overlap = true
+					}
+				}
+			}
+		}
+	}
+	committed, newErrs, commitErrs, rolledBack := 0, 0, 0, 0
 	for _, r := range results {
 		switch {
 		case r.Committed:
 			committed++
 		case r.NewErr != "":
 			newErrs++
+		case r.End == "rollback" && r.AddErr == "":
+			rolledBack++
 		default:
 			commitErrs++
 		}
@@ -811,10 +953,12 @@ func runRace(pl racePlan) (res caseResult) {
 			mixed = true
 		}
 	}
-	res.fp = fmt.Sprintf("create-race:n=%d:mixed=%v:pre=%v:committed=%d:newerr=%d:commiterr=%d", pl.N, mixed, pl.Preexisting, committed, newErrs, commitErrs)
-	res.nontrivial = pl.N >= 2 && (committed >= 2 || committed < pl.N)
+	res.fp = fmt.Sprintf("create-race:%s:n=%d:mixed=%v:pre=%v:committed=%d:rolledback=%d:newerr=%d:commiterr=%d", pl.Mode, pl.N, mixed, pl.Preexisting,
+		committed, rolledBack, newErrs, commitErrs)
+	res.nontrivial = pl.N >= 2 && overlap
 	res.notes["creators"] = results
 	res.notes["committed"] = committed
+	res.notes["mode"] = pl.Mode
 
 	check := func(where string, o observation) []finding {
 		var fs []finding
@@ -832,9 +976,20 @@ func runRace(pl racePlan) (res caseResult) {
 			}
 		}
 		fs = kept
-		site := "no-creator-committed"
+		// site class: which of the two ways a creator can take the store away from the others was in play
+		site := "none-committed"
 		if committed > 0 {
-			site = "committed-creator"
+			site = "all-committed"
+			for _, cr := range results {
+				if !cr.Committed {
+					site = "creator-aborted" // some creator rolled back or failed after NewBtree succeeded
+				}
+			}
+			for _, cr := range results {
+				if strings.Contains(cr.NewErr, "can't add store") {
+					site = "add-race-loser" // some creator lost the StoreRepository.Add race inside NewBtree
+				}
+			}
 		}
 		inList := countOf(o.Stores, raceStore)
 		if inList > 1 {
@@ -1037,12 +1192,10 @@ func runRRSteps(pl rrPlan) (res rrResult) {
 	o := observe(sp, append(namesOf(remaining, nil), rrStore))
 	for _, f := range checkModel("same-process", o, remaining, map[string]string{rrStore: site}, site) {
 		switch f.Outcome {
-		case "store-listed", "in-storelist-file":
-			f.Outcome = "still-listed-after-remove"
-		case "folder-remains":
-			f.Outcome = "folder-remains-after-remove"
-		case "opens":
-			f.Outcome = "opens-after-remove"
+		case "store-exists":
+			f.Outcome = "still-exists-after-remove"
+		case "remnants-on-disk":
+			f.Outcome = "remnants-after-remove"
 		default:
 			f.Outcome = "other-store-damaged-by-remove/" + f.Outcome
 		}
@@ -1156,10 +1309,9 @@ func runRR(pl rrPlan) (res caseResult) {
 
 const rule = "three PRNG-generated case families (pure function of VERIF_SEED and tier): create-abort programs (2..5 transactions, 1..3 store " +
 	"creations each, 6 endings, every ending x placement profile forced at least once per 24 programs), create-race rounds (2..6 creators, same or " +
-	"mixed options, with/without a pre-existing other store), remove-recreate sequences (single-folder and replicated layout, all three options " +
+	"mixed options, with/without a pre-existing other store; modes scripted interleaving / parallel NewBtree / fully parallel (thorough only)), remove-recreate sequences (single-folder and replicated layout, all three options " +
 	"flipped). Fingerprint = family + the sequence of (ending, profiles) | (creators, outcome counts) | (layout, option flips, commits). " +
-	"Non-trivial: create-abort = at least one aborted transaction had really created a store; create-race = all creators ran and contention was " +
-	"visible (some creator failed) or two or more committed; remove-recreate = the removed store held items. Every case is observed by fresh " +
+	"Non-trivial: create-abort = at least one aborted transaction had really created a store; create-race = two or more creators whose transactions overlapped in time; remove-recreate = the removed store held items. Every case is observed by fresh " +
 	"transactions of the same process and by a cold child process."
 
 var assumptions = []string{
@@ -1172,35 +1324,56 @@ var assumptions = []string{
 
 func Run(r *report.Run) int {
 	rnd := env.Rand(r.Seed, "c12-plan")
-	nAbort, nRace, nRRs, nRRr := r.Pick(16, 240), r.Pick(14, 220), r.Pick(7, 100), r.Pick(3, 40)
+	nAbort := r.Pick(20, 240)
+	nScripted, nParCreate, nParFull := r.Pick(6, 120), r.Pick(6, 90), r.Pick(0, 10)
+	nRRs, nRRr := r.Pick(6, 100), r.Pick(2, 40)
+	only := os.Getenv("VERIF_C12_ONLY") // development aid: run one family
 
 	type job struct {
 		kind string
 		run  func() caseResult
 		lit  any
 	}
-	var jobs []job
-	// forced (ending, profile) pairs cycle through the whole 6 x 4 grid
-	var pairs [][2]string
+	var jobs, background []job
+	// forced (ending, profile) pairs: the actively persisted placement first, then the rest of the 6 x 4 grid
+	var pairs, rest [][2]string
 	for _, e := range endings {
 		for _, p := range sopx.Profiles {
-			pairs = append(pairs, [2]string{e, string(p)})
+			pr := [2]string{e, string(p)}
+			if e == "commit" { // a plain commit aborts nothing; force a rollback instead
+				pr[0] = "rollback"
+			}
+			if p == sopx.SepActive {
+				pairs = append(pairs, pr)
+			} else {
+				rest = append(rest, pr)
+			}
 		}
 	}
-	rnd.Shuffle(len(pairs), func(i, j int) { pairs[i], pairs[j] = pairs[j], pairs[i] })
+	rnd.Shuffle(len(rest), func(i, j int) { rest[i], rest[j] = rest[j], rest[i] })
+	pairs = append(pairs, rest...)
 	for i := 0; i < nAbort; i++ {
 		pr := pairs[i%len(pairs)]
-		if pr[0] == "commit" { // a plain commit aborts nothing; force a rollback instead
-			pr[0] = "rollback"
-		}
 		salt := fmt.Sprintf("abort-%d", i)
 		pl := genAbortPlan(env.Rand(r.Seed, salt), r.Seed, salt, pr[0], sopx.Profile(pr[1]))
 		jobs = append(jobs, job{"create-abort", func() caseResult { return runAbort(pl) }, pl})
 	}
-	for i := 0; i < nRace; i++ {
+	for i := 0; i < nScripted+nParCreate+nParFull; i++ {
+		mode, n := "scripted", 2+i%3
+		switch {
+		case i >= nScripted+nParCreate:
+			mode, n = "parallel-full", 2+i%5
+		case i >= nScripted:
+			mode, n = "parallel-create", 2+i%5
+		}
 		salt := fmt.Sprintf("race-%d", i)
-		pl := genRacePlan(env.Rand(r.Seed, salt), r.Seed, salt, 2+i%5, i%3 == 2)
-		jobs = append(jobs, job{"create-race", func() caseResult { return runRace(pl) }, pl})
+		pl := genRacePlan(env.Rand(r.Seed, salt), r.Seed, salt, mode, n, i%3 == 2)
+		j := job{"create-race", func() caseResult { return runRace(pl) }, pl}
+		if mode == "parallel-full" {
+			background = append(background, j)
+		} else {
+			jobs = append(jobs, j)
+		}
 	}
 	for i := 0; i < nRRs+nRRr; i++ {
 		layout := "single"
@@ -1213,11 +1386,22 @@ func Run(r *report.Run) int {
 	}
 	// interleave the families so that process-wide caches see a mixed history
 	rnd.Shuffle(len(jobs), func(i, j int) { jobs[i], jobs[j] = jobs[j], jobs[i] })
-	r.Set("planned_cases", len(jobs))
+	if only != "" {
+		keep := func(in []job) (out []job) {
+			for _, j := range in {
+				if j.kind == only {
+					out = append(out, j)
+				}
+			}
+			return
+		}
+		jobs, background = keep(jobs), keep(background)
+	}
+	r.Set("planned_cases", len(jobs)+len(background))
 
 	sampled := map[string]int{}
-	for _, j := range jobs {
-		res := safely(j.run)
+	record := func(j job, res caseResult, ms int64) {
+		r.Count("wall_ms_"+j.kind, ms)
 		if res.unusable != "" {
 			r.Inconclusive(j.kind + ":" + short(res.unusable))
 			r.Count("unusable_"+j.kind, 1)
@@ -1225,18 +1409,23 @@ func Run(r *report.Run) int {
 				r.Set(fmt.Sprintf("unusable_example_%s_%d", j.kind, n), map[string]any{"case": j.lit, "why": res.unusable})
 			}
 			r.Eval(j.kind+":unusable", false)
-			continue
+			return
 		}
 		r.Eval(res.fp, res.nontrivial)
 		r.Count("cases_"+j.kind, 1)
 		if res.nontrivial {
 			r.Count("nontrivial_"+j.kind, 1)
 		}
+		for _, e := range res.endStats {
+			r.Count("abort_tx_"+e, 1)
+		}
 		if sampled[j.kind] < 2 {
 			sampled[j.kind]++
 			r.Sample(map[string]any{"family": j.kind, "case": j.lit, "fingerprint": res.fp})
 		}
 		if j.kind == "create-race" {
+			mode, _ := res.notes["mode"].(string)
+			r.Count("race_rounds_"+mode, 1)
 			if c, ok := res.notes["committed"].(int); ok {
 				r.Count(fmt.Sprintf("race_rounds_with_%d_committed", c), 1)
 			}
@@ -1255,6 +1444,30 @@ func Run(r *report.Run) int {
 			r.Count("finding:"+sig, 1)
 			r.Violation(sig, map[string]any{"case": j.lit, "fingerprint": res.fp, "finding": f, "notes": res.notes})
 		}
+	}
+
+	// fully parallel rounds may sit in the library's 3-minute lock wait: run them beside the rest
+	type bgRes struct {
+		res caseResult
+		ms  int64
+	}
+	bg := make([]chan bgRes, len(background))
+	for i, j := range background {
+		bg[i] = make(chan bgRes, 1)
+		go func(i int, j job) {
+			t0 := time.Now()
+			res := safely(j.run)
+			bg[i] <- bgRes{res, time.Since(t0).Milliseconds()}
+		}(i, j)
+	}
+	for _, j := range jobs {
+		t0 := time.Now()
+		res := safely(j.run)
+		record(j, res, time.Since(t0).Milliseconds())
+	}
+	for i, j := range background {
+		b := <-bg[i]
+		record(j, b.res, b.ms)
 	}
 	return r.Finish(rule, assumptions, 20)
 }
